@@ -185,6 +185,44 @@ fn trace_dec<T: Message>(input: &[u8], proto: &str) -> Value {
     }
 }
 
+/// decode_async() through a `TracedAR` around the real asynchronous protocol over a scripted stream (chunks of 1..7 bytes
+/// with Pendings in between, seeded)
+fn trace_dec_async<T: Message>(input: &[u8], proto: &str, seed: u64) -> Value {
+    use std::sync::atomic::AtomicUsize;
+    use std::sync::Arc;
+    use vh::traced::TracedAR;
+    let mut x: u64 = seed | 1;
+    let mut sched = vec![];
+    for _ in 0..input.len() * 2 + 4 {
+        x ^= x << 13;
+        x ^= x >> 7;
+        x ^= x << 17;
+        sched.push(if x % 4 == 0 { Sched::Pending } else { Sched::Deliver((x % 7 + 1) as usize) });
+    }
+    let mut rd = ScriptedReader::new(input.to_vec(), sched, 3);
+    let shared = Arc::new(AtomicUsize::new(0));
+    rd.shared_pos = Some(shared.clone());
+    macro_rules! go {
+        ($mk:expr) => {{
+            let mut tr = TracedAR::new($mk, shared.clone());
+            let r = catch_unwind(AssertUnwindSafe(|| block_on(Box::pin(T::decode_async(&mut tr)), 20_000_000)));
+            let err = match r {
+                Ok(Some(Ok(_))) => String::new(),
+                Ok(Some(Err(e))) => format!("err: {e}"),
+                Ok(None) => "hang".to_string(),
+                Err(e) => panic_msg(e),
+            };
+            (tr.log, err, tr.unmodelled)
+        }};
+    }
+    let (log, err, unm) = match proto {
+        "bin" => go!(binary::TAsyncBinaryProtocol::new(&mut rd)),
+        "binle" => go!(binary_le::TAsyncBinaryProtocol::new(&mut rd)),
+        _ => go!(compact::TAsyncCompactProtocol::new(&mut rd)),
+    };
+    json!({"events": log, "used": rd.pos, "err": err, "unmodelled": unm})
+}
+
 /// size() then encode() of x through a `TracedW` around the real protocol writing into a BytesMut
 fn trace_enc<T: Message>(x: &T, proto: &str) -> Value {
     use vh::traced::TracedW;
@@ -238,6 +276,14 @@ pub fn exec<T: Message + PartialEq + std::fmt::Debug>(req: &Value) -> Value {
             for tp in ["bin", "binle", "compact", "unsafe"] {
                 if req["inputs"][tp].is_array() {
                     traces.insert(tp.to_string(), trace_dec::<T>(&bytes_of(&req["inputs"][tp]), tp));
+                }
+            }
+            if req["with_async"].as_bool().unwrap_or(false) {
+                for tp in ["bin", "binle", "compact"] {
+                    if req["inputs"][tp].is_array() {
+                        let seed = req["id"].as_u64().unwrap_or(1) * 2654435761 + tp.len() as u64;
+                        traces.insert(format!("a{tp}"), trace_dec_async::<T>(&bytes_of(&req["inputs"][tp]), tp, seed));
+                    }
                 }
             }
             return json!({"ok": true, "traces": traces});
